@@ -163,6 +163,29 @@ func (m *Model) ruleDSN(r *Results) {
 	for _, o := range opts["_locking_mode"] {
 		r.info(rule, m.declName(fn)+" / _locking_mode", o.pos, "locking mode %s", o.val)
 	}
+	// an in-memory database lives exactly as long as its one connection: the pool must never
+	// retire connections by age or idleness
+	retire := ""
+	for _, f := range m.Funcs {
+		if !m.inPkg(f) {
+			continue
+		}
+		m.eachCall(f, func(c ssa.CallInstruction) {
+			for _, name := range []string{"SetConnMaxIdleTime", "SetConnMaxLifetime"} {
+				if isMethodCall(c.Common(), "database/sql", "DB", name) && len(c.Common().Args) == 2 {
+					if k, ok := stripConv(c.Common().Args[1]).(*ssa.Const); ok && k.Value != nil && k.Int64() <= 0 {
+						continue // 0 = never
+					}
+					retire = m.instrPos(c)
+				}
+			}
+		})
+	}
+	pos := m.pos(fn.Pos())
+	if retire != "" {
+		pos = retire
+	}
+	r.check(retire == "", rule, "pool never retires a connection", pos, "no call gives the pool's connections a maximum age or idle time", "the pool is told to close connections after a while: the single connection of an in-memory bucket IS the bucket, so after that time every handle finds an empty database (no such table) although nobody deleted it")
 }
 
 // ---------------------------------------------------------------- R-BACKFILL (statement and scan shape)
@@ -182,17 +205,18 @@ func (m *Model) eventFieldTable() (map[string]*types.Var, string) {
 		return nil, "no documents table"
 	}
 	used := map[*types.Var]bool{}
+	flat := flatFields(st)
 	for _, cn := range docs.Order {
-		for i := 0; i < st.NumFields(); i++ {
-			if strings.EqualFold(st.Field(i).Name(), cn) {
-				out[lower(cn)] = st.Field(i)
-				used[st.Field(i)] = true
+		for _, ff := range flat {
+			if strings.EqualFold(ff.v.Name(), cn) {
+				out[lower(cn)] = ff.v
+				used[ff.v] = true
 			}
 		}
 	}
 	// remaining bool field <-> tombstone
-	for i := 0; i < st.NumFields(); i++ {
-		f := st.Field(i)
+	for _, ff := range flat {
+		f := ff.v
 		if !used[f] && types.Identical(f.Type(), types.Typ[types.Bool]) {
 			if _, dup := out["tombstone"]; dup {
 				return nil, "two candidate deletion-flag fields in the event type"
@@ -201,9 +225,9 @@ func (m *Model) eventFieldTable() (map[string]*types.Var, string) {
 			used[f] = true
 		}
 	}
-	for i := 0; i < st.NumFields(); i++ {
-		if !used[st.Field(i)] {
-			return nil, "event field " + st.Field(i).Name() + " mirrors no documents column"
+	for _, ff := range flat {
+		if !used[ff.v] {
+			return nil, "event field " + ff.v.Name() + " mirrors no documents column"
 		}
 	}
 	return out, ""
@@ -602,6 +626,50 @@ func (m *Model) ruleLIVE(r *Results) {
 	}
 	if nb < 4 {
 		r.undecided(rule, "body reads", "-", "only %d scans of the body column found", nb)
+	}
+	// a partial UPDATE (one that leaves the body alone: a touch, an xattr edit) applies to whatever
+	// row the key addresses, tombstone or not, unless the statement says otherwise; the transaction
+	// that issues it must therefore have looked at the row's liveness (body or flag) itself
+	e := m.newTermEval()
+	for _, wu := range m.writeUnits(e) {
+		if wu.Stmt.Kind != sqlp.SUpdate || wu.Cols["value"].Kind != "unassigned" {
+			continue
+		}
+		inWhere := false
+		for _, cj := range sqlp.Conjuncts(wu.Stmt.Where) {
+			if hasBodyTest(cj) || noBodyTest(cj) {
+				inWhere = true
+			}
+		}
+		ext := m.reachableLocal(wu.K)
+		read := false
+		for _, sc := range m.scanCalls() {
+			if sc.Site == nil || !ext[sc.Fn] {
+				continue
+			}
+			for _, v := range sc.Site.Variants {
+				st := v.Stmt()
+				if st == nil || st.Select == nil {
+					continue
+				}
+				onDocs := false
+				for _, t := range st.Tables() {
+					if t == "documents" {
+						onDocs = true
+					}
+				}
+				if !onDocs {
+					continue
+				}
+				for _, c := range st.Select.Cols {
+					if isCol(c.Expr, "value") || isCol(c.Expr, "tombstone") || hasBodyTest(c.Expr) || noBodyTest(c.Expr) {
+						read = true
+					}
+				}
+			}
+		}
+		key := fmt.Sprintf("%s / %s / partial update knows whether the row is live", m.declName(wu.K), wu.Stmt.Shape())
+		r.check(inWhere || read, rule, key, m.instrPos(wu.Site.Call), "the transaction reads the row's body or deletion flag (or the statement tests it)", "the statement rewrites part of a row (not its body) and neither it nor any read in the same transaction looks at the row's body or deletion flag: it is applied to a tombstone as if the document were live (a deleted key can be touched, gets an expiry and a new revision)")
 	}
 	r.floor(rule, 2)
 }
